@@ -14,12 +14,12 @@ package fasthttp
 //@     (a == StateIdle && (b == StateActive || b == StateClosed))
 
 //@ func Server.serveConnCounted results err
-//@   property C10 C11 C14 C17 C02 C35
+//@   property C10 C11 C14 C17 C02 C35 C03
 //@   mode skeleton
 //@   nooverflow
 //@   stable s.DisableKeepalive s.MaxRequestsPerConn s.CloseOnShutdown s.ReduceMemoryUsage s.StreamRequestBody
 //@   stable s.ExpectHandler s.ContinueHandler s.Handler s.GetOnly s.DisablePreParseMultipartForm s.MaxRequestBodySize
-//@   stable s.HeaderReceived ctx.hijackHandler ctx.hijackNoResponse
+//@   stable s.HeaderReceived ctx.hijackHandler ctx.hijackNoResponse ctx.Response.SkipBody
 //
 //      -- what this iteration did
 //@   ghost handled bool = false
@@ -91,11 +91,12 @@ package fasthttp
 //@     effect rejected = rejected || !ok; unread = unread || !ok
 //@   on call field:Handler:
 //@     effect handled = true; respClose = *; respDirty = true; unread = unread && nd; freshCtx = false
-//@     modifies ctx.hijackHandler ctx.hijackNoResponse ctx.timeoutResponse
+//@     modifies ctx.hijackHandler ctx.hijackNoResponse ctx.timeoutResponse ctx.Response.SkipBody
 //@   on call Request.hasUnreadBodyStream -> u:
 //@     returns unread && !freshCtx
 //@   on call Response.CopyTo:
 //@     effect respClose = *; respDirty = true
+//@     modifies ctx.Response.SkipBody
 //@   on call RequestHeader.ConnectionClose -> r:
 //@     returns reqClose
 //@   on call RequestHeader.IsHTTP11 -> r:
@@ -108,7 +109,14 @@ package fasthttp
 //@     effect kaSet = true
 //@   on call atomic.Int32.Load -> v:
 //@     effect lastStop = v
+//   A response to HEAD carries no body: whatever the handler (or a timeout response copied over it) did to the
+//   response object, SkipBody is set when the response is written.
+//@   ghost isHead bool = false
+//@   on call RequestCtx.IsHead -> r:
+//@     nohavoc
+//@     returns isHead
 //@   on call writeResponse:
+//@     requires[head-response-skips-body] @C03 isHead ==> ctx.Response.SkipBody
 //@     requires[dispatched] @C11 handled || rejected
 //@     requires[close-header-matches] @C10 respClose == connectionClose
 //@     requires[close-reasons] @C10 reqClose || s.DisableKeepalive || rejected || unread ||
@@ -126,16 +134,20 @@ package fasthttp
 //@     effect reqDirty = false; formLive = false
 //@   on call Response.Reset:
 //@     effect respDirty = false; respClose = false; kaSet = false
+//@     modifies ctx.Response.SkipBody
 //@   on call Server.releaseCtx:
 //@     effect ctxReleased = ctxReleased + 1; reqDirty = false; respDirty = false; formLive = false
 //   The hijack handler gets a connection without deadlines: the read/write deadlines this loop armed for the request
 //   (server-wide or per request, from HeaderReceived) would otherwise cut off the bytes the client sends later.
 //@   ghost deadlinesCleared bool = false
 //@   on call net.Conn.SetDeadline(_, t) -> e:
+//@     nohavoc
 //@     effect deadlinesCleared = (e == nil && t == zeroTime)
 //@   on call net.Conn.SetReadDeadline -> e:
+//@     nohavoc
 //@     effect deadlinesCleared = false
 //@   on call net.Conn.SetWriteDeadline -> e:
+//@     nohavoc
 //@     effect deadlinesCleared = false
 //@   on go hijackConnHandler:
 //@     requires[response-flushed-first] @C17 hijackNoResponse || (wrote && flushed)
@@ -145,7 +157,7 @@ package fasthttp
 //
 //@   loop 1:
 //@     iter handled = false; rejected = false; wrote = false; flushed = false; bytesSeen = false; lastStop = 0
-//@     iter reqClose = *; http11 = *; nd = *
+//@     iter reqClose = *; http11 = *; nd = *; isHead = *
 //@     invariant[no-stale-decision] @C11 !connectionClose && hijackHandler == nil && !hijackNoResponse
 //@     invariant[objects-reset] @C11 !reqDirty && !respDirty && !respClose && !kaSet
 //@     invariant[body-consumed] @C02 !unread
